@@ -80,7 +80,7 @@ def run_history(case):
 
 
 CHECKS = [
-    Check("history", run_history, strategy=lambda tier: ops.histories(12), quick_n=1500, thorough_n=25000,
+    Check("history", run_history, strategy=lambda tier: ops.histories(12), quick_n=2000, thorough_n=25000,
           doc="operation histories, invariant after every step"),
 ]
 KNOWN = {}
